@@ -204,6 +204,9 @@ func (e *Engine) finishResults(fr *Frame, results []Result) []Result {
 			return fmt.Sprintf("%p|%s|%s|%s", r.site, boolKey(r), partitionKey(r.st), shapeKey(r.st))
 		}, "site", 0)
 	}
+	if e.Cfg.ResultCap > K {
+		K = e.Cfg.ResultCap
+	}
 	if len(results) > K {
 		results = group(func(r Result) string { return fmt.Sprintf("%p|%s|%s", r.site, boolKey(r), partitionKey(r.st)) }, "site1", K)
 	}
@@ -1159,6 +1162,32 @@ func (e *Engine) joinAllDefs(ss []*State, fr *Frame, where string, head bool, pe
 			R.vals[k] = m
 		}
 	}
+	// ghost cells with a declared default ("nothing recorded yet") are completed on
+	// the sides that lack them, so that one path without the event does not erase
+	// what the other paths recorded
+	if e.Cfg.GhostDefault != nil {
+		union := map[string]Cell{}
+		for _, s := range ss {
+			for k, c := range s.cells {
+				if strings.HasPrefix(c.P.Key, "GHOST:") {
+					if _, ok := union[k]; !ok {
+						union[k] = c
+					}
+				}
+			}
+		}
+		for k, c := range union {
+			dv, ok := e.Cfg.GhostDefault(c.P.Key, c.F)
+			if !ok {
+				continue
+			}
+			for _, s := range ss {
+				if _, has := s.cells[k]; !has {
+					s.cells[k] = Cell{c.P, c.F, dv}
+				}
+			}
+		}
+	}
 	var cks []string
 	for k := range ss[0].cells {
 		cks = append(cks, k)
@@ -1503,6 +1532,13 @@ func (e *Engine) joinAllDefs(ss []*State, fr *Frame, where string, head bool, pe
 				}
 				addCand(sv.Lo.Add(iv.L).Sub(sv.Hi))
 			}
+		}
+	}
+	// (f) rule-supplied templates: linear forms L (meaning L ≤ 0) over the joined
+	// state that a rule will ask about later — kept if every side entails them
+	if e.Cfg.Hooks.Templates != nil {
+		for _, l := range e.Cfg.Hooks.Templates(e, R, fr) {
+			addCand(l)
 		}
 	}
 	// a constraint over symbols that nothing in the joined state refers to is garbage
